@@ -43,12 +43,49 @@ def main():
     model = G()
     kw = dict(cfg["kwargs"])
     ins = bool(cfg.get("ins"))
-    fs = FlowSampler(model, output=cfg["output"], importance_nested_sampler=ins, plot=False, resume=False,
-                     seed=cfg["seed"], checkpointing=False, signal_handling=False,
-                     flow_config={"n_blocks": 2, "n_neurons": 8}, training_config={"max_epochs": 15, "patience": 5},
-                     **kw)
     run_kw = dict(cfg.get("run_kwargs", {}))
-    fs.run(plot=False, save=bool(cfg.get("save", True)), **run_kw)
+    common_kw = dict(output=cfg["output"], importance_nested_sampler=ins, plot=False, seed=cfg["seed"], signal_handling=False,
+                     flow_config={"n_blocks": 2, "n_neurons": 8}, training_config={"max_epochs": 15, "patience": 5})
+    stops = list(cfg.get("resume_after", []))    # the process "dies" right after the checkpoint of these iterations
+    resumed_at = []
+    if not stops:
+        fs = FlowSampler(model, resume=False, checkpointing=False, **common_kw, **kw)
+        fs.run(plot=False, save=bool(cfg.get("save", True)), **run_kw)
+    else:
+        import os
+        from nessai.samplers.base import BaseNestedSampler
+
+        class StopHere(BaseException):
+            pass
+
+        state = {"stop": None}
+        classes = [c for c in BaseNestedSampler.__subclasses__()] + [BaseNestedSampler]
+        from nessai.samplers.nestedsampler import NestedSampler
+        from nessai.samplers.importancesampler import ImportanceNestedSampler
+        cls = ImportanceNestedSampler if ins else NestedSampler
+        real_ckpt = cls.checkpoint
+
+        def checkpoint(self, *a, **k):
+            r = real_ckpt(self, *a, **k)
+            if (state["stop"] is not None and self.iteration >= state["stop"] and not self.finalised
+                    and os.path.exists(self.resume_file)):
+                raise StopHere()
+            return r
+
+        cls.checkpoint = checkpoint
+        first = True
+        for stop in stops + [None]:
+            state["stop"] = stop
+            fs = FlowSampler(model, resume=not first, checkpointing=True, checkpoint_on_iteration=True,
+                             checkpoint_interval=cfg.get("checkpoint_interval", 1), **common_kw, **kw)
+            if not first:
+                resumed_at.append(int(fs.ns.iteration))
+            first = False
+            try:
+                fs.run(plot=False, save=bool(cfg.get("save", True)), **run_kw)
+            except StopHere:
+                continue
+        cls.checkpoint = real_ckpt
     ns = fs.ns
     flt = lambda a: [float(v) for v in np.asarray(a, dtype=float).ravel()]
     first = collect(cfg, fs, ns, model, ins, run_kw, flt)
@@ -72,6 +109,7 @@ def main():
                     pass
     out = collect(cfg, fs, ns, model, ins, run_kw, flt)
     out["unstable"] = sorted(diff_keys(first, out))
+    out["resumed_at"] = resumed_at
     out["touched"] = touched
     json.dump(out, sys.stdout)
 
